@@ -42,7 +42,7 @@ struct DoubleT {
   static void fold(MSum& m, i64 v, int nv) { if (m.empty()) m.push_back(0); m[0] += value(v, nv); }
   static void combine(MSum& m, const MSum& o) { m[0] += o[0]; }
   static MSum of(const Summary& s) { return MSum{ s }; }
-  static C from_theta(const ds::compact_theta_sketch_alloc<talloc<uint64_t>>& t, int) { return C(t, 2.5, true); }
+  static C from_theta(const ds::theta_sketch_alloc<talloc<uint64_t>>& t, int) { return C(t, 2.5, true); }
   static MSum theta_summary(int) { return MSum{ 2.5 }; }
   static bool pred(const Summary& s, double th) { return s > th; }
   static bool mpred(const MSum& m, double th) { return m[0] > th; }
@@ -69,7 +69,7 @@ struct ListT {
   static void fold(MSum& m, i64 v, int) { m.push_back(static_cast<double>(v)); }
   static void combine(MSum& m, const MSum& o) { m.insert(m.end(), o.begin(), o.end()); }
   static MSum of(const Summary& s) { return s.v; }
-  static C from_theta(const ds::compact_theta_sketch_alloc<talloc<uint64_t>>& t, int) { vlist one; one.v.push_back(-1.0); return C(t, one, true); }
+  static C from_theta(const ds::theta_sketch_alloc<talloc<uint64_t>>& t, int) { vlist one; one.v.push_back(-1.0); return C(t, one, true); }
   static MSum theta_summary(int) { return MSum{ -1.0 }; }
   static bool pred(const Summary& s, double th) { return static_cast<double>(s.v.size()) > th / 2; }
   static bool mpred(const MSum& m, double th) { return static_cast<double>(m.size()) > th / 2; }
@@ -99,8 +99,8 @@ struct AodT {
   static bool mpred(const MSum& m, double th) { return m[0] > th; }
 };
 
-enum { T_UPD = 1, T_BATCH, T_RESET, T_TRIM, T_COMPACT, T_UNION_ADD, T_UNION_GET, T_INTER_ADD, T_INTER_GET, T_ANOTB, T_FILTER, T_COPY, T_NEW_OPS, T_SERDE, T_N };
-const char* tnames[] = { "?", "update", "batch", "reset", "trim", "compact", "union_update", "union_get_result", "intersection_update", "intersection_get_result", "a_not_b", "filter", "copy", "new_operators", "serde" };
+enum { T_UPD = 1, T_BATCH, T_RESET, T_TRIM, T_COMPACT, T_UNION_ADD, T_UNION_GET, T_INTER_ADD, T_INTER_GET, T_ANOTB, T_FILTER, T_COPY, T_NEW_OPS, T_SERDE, T_FROM_THETA, T_N };
+const char* tnames[] = { "?", "update", "batch", "reset", "trim", "compact", "union_update", "union_get_result", "intersection_update", "intersection_get_result", "a_not_b", "filter", "copy", "new_operators", "serde", "theta_operand" };
 
 typedef std::map<u64, MSum> MMap;
 struct MTuple { u64 theta = MAXT; bool empty = true; MMap e; };
@@ -198,7 +198,15 @@ template<typename K> struct TupleExec {
           compare(observe(*res), w, "a_not_b"); ctx.nontrivial = true; break; }
         case T_FILTER: { const double th = static_cast<double>(s.b % 12); auto r = n.sk->filter([&](const typename K::Summary& x) { return K::pred(x, th); });
           MTuple a = observe(*n.sk), w; w.theta = a.theta; w.empty = a.empty; for (auto& kv : a.e) if (K::mpred(kv.second, th)) w.e[kv.first] = kv.second;
-          MTuple g = observe(r); ctx.require(g.theta == w.theta, fp("filter|theta").c_str(), ""); ctx.require(g.e == w.e, fp("filter|entries-differ-from-predicate").c_str(), std::to_string(g.e.size()) + " vs " + std::to_string(w.e.size())); break; }
+          MTuple g = observe(r); ctx.require(g.theta == w.theta, fp("filter|theta").c_str(), ""); ctx.require(g.e == w.e, fp("filter|entries-differ-from-predicate").c_str(), std::to_string(g.e.size()) + " vs " + std::to_string(w.e.size()));
+          // a filtered sketch is empty only if its source is, or if nothing is left of an exact source: theta below 1 still says that items were seen
+          w.empty = a.empty || (a.theta == MAXT && w.e.empty());
+          ctx.require(g.empty == w.empty, fp("filter|emptiness").c_str(), "result empty=" + std::to_string(g.empty) + " expected " + std::to_string(w.empty) + " (source theta " + hx(a.theta) + ", " + std::to_string(w.e.size()) + " entries kept)");
+          // and the filtered sketch must behave as that sketch when it is used as an operand
+          { typename K::UN u2 = K::build_union(lg_u, seed, nv); u2.update(r); MTuple ur = observe(u2.get_result(true)); MTuple uw = w; if (uw.e.size() > ku) { auto it = uw.e.begin(); std::advance(it, static_cast<std::ptrdiff_t>(ku)); uw.theta = it->first; uw.e.erase(it, uw.e.end()); }
+            if (!w.empty) compare(ur, uw, "union-of-filtered", false); }
+          break; }
+        case T_FROM_THETA: from_theta(&n, &s, 0); break;
         default: break;
       }
       for (Node& x : nodes) check_node(x, k, pp, tstart, tnames[s.kind]);
@@ -206,6 +214,35 @@ template<typename K> struct TupleExec {
     }
   }
   void serde(Node&) {}
+  // Theta sketches as operands: converted with a constant summary; the converted sketch must hold the theta sketch's keys, be sorted when it
+  // says it is ordered, and give exact results when used in A-not-B / intersection / union next to tuple operands
+  template<typename KK = K> auto from_theta(Node* np, const Step* sp, int) -> decltype(KK::theta_summary(0), void()) { Node& n = *np; const Step& s = *sp;
+    typedef talloc<uint64_t> TA; typedef ds::update_theta_sketch_alloc<TA> TU; typedef ds::compact_theta_sketch_alloc<TA> TC;
+    TU tu = typename TU::builder(TA(1)).set_lg_k(static_cast<uint8_t>(p.cfg[1])).set_p(PS[p.cfg[3] & 3]).set_seed(seed).build();
+    for (i64 j = 0; j < 40 + s.b * 6; j++) tu.update(static_cast<int64_t>(s.b + j));
+    const MTuple na = observe(*n.sk); const size_t ku = static_cast<size_t>(1) << p.cfg[6];
+    MTuple w; w.theta = tu.get_theta64(); w.empty = tu.is_empty(); for (auto it = tu.begin(); it != tu.end(); ++it) w.e[*it] = KK::theta_summary(nv);
+    for (int form = 0; form < 3; form++) {
+      TC tc = tu.compact(form == 2);
+      C conv = form == 0 ? KK::from_theta(tu, nv) : KK::from_theta(tc, nv);   // unordered table, unordered compact, ordered compact: all asked to be ordered
+      compare(observe(conv), w, "theta-conversion");
+      if (conv.is_ordered()) { u64 prev = 0; for (auto it = conv.begin(); it != conv.end(); ++it) { ctx.require(it->first >= prev, fp("theta-conversion|claims-ordered-but-is-not-sorted").c_str(), "form " + std::to_string(form)); prev = it->first; } }
+      typename K::ANB anb = K::build_anb(seed); C nb = n.sk->compact(true);
+      { MTuple x; if (w.empty || (!w.e.empty() && na.empty)) x = w; else { x.theta = std::min(w.theta, na.theta); x.empty = false; for (auto& kv : w.e) if (kv.first < x.theta && !na.e.count(kv.first)) x.e[kv.first] = kv.second; if (x.e.empty() && x.theta == MAXT) x.empty = true; }
+        compare(observe(anb.compute(conv, nb, true)), x, "a_not_b-theta-operand"); }
+      { typename K::IN in2 = K::build_inter(seed, nv); in2.update(nb); in2.update(conv); MTuple x; x.empty = na.empty || w.empty; x.theta = x.empty ? MAXT : std::min(na.theta, w.theta);
+        if (!x.empty) for (auto& kv : na.e) { auto o = w.e.find(kv.first); if (kv.first < x.theta && o != w.e.end()) { MSum m = kv.second; K::combine(m, o->second); x.e[kv.first] = m; } }
+        if (x.e.empty() && x.theta == MAXT) x.empty = true;
+        compare(observe(in2.get_result(true)), x, "intersection-theta-operand"); }
+      { typename K::UN u2 = K::build_union(static_cast<int>(p.cfg[6]), seed, nv); u2.update(nb); u2.update(conv); MTuple x; x.empty = na.empty && w.empty; x.theta = MAXT; if (!na.empty) x.theta = std::min(x.theta, na.theta); if (!w.empty) x.theta = std::min(x.theta, w.theta);
+        if (!na.empty) for (auto& kv : na.e) if (kv.first < x.theta) x.e[kv.first] = kv.second;
+        if (!w.empty) for (auto& kv : w.e) if (kv.first < x.theta) { auto it = x.e.find(kv.first); if (it == x.e.end()) x.e[kv.first] = kv.second; else K::combine(it->second, kv.second); }
+        if (x.e.size() > ku) { auto it = x.e.begin(); std::advance(it, static_cast<std::ptrdiff_t>(ku)); x.theta = it->first; x.e.erase(it, x.e.end()); }
+        compare(observe(u2.get_result(true)), x, "union-theta-operand", false); }
+      ctx.probe("theta_operand_form"); ctx.nontrivial = true;
+    }
+  }
+  void from_theta(Node*, const Step*, long) {}
 };
 
 struct C13World: World {
@@ -222,7 +259,7 @@ struct C13World: World {
       if (roll < 20) s.kind = T_UPD; else if (roll < 45) { s.kind = T_BATCH; s.b = static_cast<i64>(rp.below(400)); static const i64 cnt[] = { 3, 10, 40, 100, 300, 900 }; s.c = std::min<i64>(rp.pick(cnt), tier ? 900 : 300); }
       else if (roll < 48) s.kind = T_RESET; else if (roll < 52) s.kind = T_TRIM; else if (roll < 57) s.kind = T_COMPACT;
       else if (roll < 68) s.kind = T_UNION_ADD; else if (roll < 73) s.kind = T_UNION_GET; else if (roll < 81) s.kind = T_INTER_ADD; else if (roll < 84) s.kind = T_INTER_GET;
-      else if (roll < 90) s.kind = T_ANOTB; else if (roll < 94) s.kind = T_FILTER; else if (roll < 97) s.kind = T_COPY; else s.kind = T_NEW_OPS;
+      else if (roll < 90) s.kind = T_ANOTB; else if (roll < 94) s.kind = T_FILTER; else if (roll < 96) s.kind = T_COPY; else if (roll < 99) s.kind = T_FROM_THETA; else s.kind = T_NEW_OPS;
       p.steps.push_back(s);
     }
     return p;
